@@ -290,6 +290,8 @@ def run(rep):
                     okz = table == {"True": "False", "False": "True", "Missing": "Missing"} and flows
         rep.check(okz, "T-COUNT", "T-COUNT/match_of/zero", mo.sp, "of(.., 0) over a single element: true iff it is false (missing stays missing)", s[:120])
     core.import_rules(rep, "c02", {"OPERAND"})
+    # of(k, n) counts the members of a regex set: the rewrite pass must keep one pattern per member
+    core.import_rules(rep, "c01", {"REWRITE-CONST"})
     core.import_rules(rep, "c06", {"TRI-ALL", "TRI-OF", "TRI-MATRIX"})
     core.import_rules(rep, "c07", {"LOCKSTEP", "AHO-OVERLAP", "T-OFFSET"})
     rep.floor("WRAP", 6)
